@@ -196,7 +196,7 @@ impl SocksListener {
                     None
                 };
                 let target = into_unspecified(local).into();
-                let (mut listen_addr, frames) = match setup_udp_session(local, remote)
+                let (mut listen_addr, frames) = match setup_udp_session(local, remote, Some(source.ip()))
                     .await
                     .context("setup_udp_session")
                 {
